@@ -96,6 +96,19 @@ class WeakCallback(object):
 weak_callback = WeakCallback
 
 
+def notify_cancel(f):
+    # Done callback for plain Future objects created by this library
+    # (the outputs of f_zip, f_and, f_or).
+    #
+    # Future.cancel() only marks a future as cancelled.  Anyone blocked in
+    # concurrent.futures.wait() or as_completed() is released only once
+    # set_running_or_notify_cancel() is called, which is normally the job of
+    # the executor owning the future.  These futures have no executor, so we
+    # must do that ourselves, however the future came to be cancelled.
+    if f.cancelled():
+        f.set_running_or_notify_cancel()
+
+
 def chain_cancel(f_outer, f_inner):
     # attempt to cancel f_inner when f_outer is cancelled
     f_outer.add_done_callback(
